@@ -277,6 +277,16 @@ def _rule_with_protocol(ctx: Ctx, r: 'LockRoles', enter_rule: Optional[str], exi
     enters = [f for f in meths if f.name == '__enter__']
     exits_ = [f for f in meths if f.name == '__exit__']
     ctxs = [f for f in meths if f.is_generator and any((dotted(d) or '').endswith('contextmanager') for d in f.decorators)]
+    # (a context manager of the class that never speaks to the lock - no acquire / release / enter / exit of self, directly or
+    # through another such method - scopes something else: a descriptor, a rollback)
+    def _speaks_to_lock(f_: Scope) -> bool:
+        return any(isinstance(x, ast.Call) and isinstance(x.func, ast.Attribute) and isinstance(x.func.value, ast.Name) and x.func.value.id == 'self'
+                   and (x.func.attr in ('acquire', 'release', '__enter__', '__exit__', r.acquire.name, r.release.name)
+                        or any(c_.name == x.func.attr and c_ is not f_ for c_ in ctxs_all))
+                   for x in ast.walk(f_.node)) or any(
+            isinstance(x, ast.With) and any(isinstance(it.context_expr, ast.Name) and it.context_expr.id == 'self' for it in x.items) for x in ast.walk(f_.node))
+    ctxs_all = list(ctxs)
+    ctxs = [f for f in ctxs if _speaks_to_lock(f)]
 
     # a method that only hands back what acquire() answered (`try_acquire`: `return self.acquire(blocking=False)`) is an
     # acquire() as far as this protocol goes: its truthy answer is acquire()'s
@@ -649,8 +659,15 @@ def c02(ctx: Ctx) -> None:
     swapped = {n.meta['name'] for n in swap}
     uses = [n for n in g2.nodes if n.kind == 'call' and (
         callee_info(g2, n.ast).get('name') == 'os.close' or callee_info(g2, n.ast).get('method') == r.osunlock_name)]
-    ok = bool(swapped) and len(uses) >= 2 and all(
-        n.ast.args and isinstance(n.ast.args[0], ast.Name) and n.ast.args[0].id in swapped for n in uses)
+    def _arg_name(n_: Node) -> Optional[str]:
+        if not n_.ast.args:
+            return None
+        a_ = n_.ast.args[0]
+        if isinstance(a_, ast.Name) and a_.id in swapped:
+            return a_.id
+        a_ = resolve(g2, n_, a_, keep=tuple(swapped))      # (`with self._closing_fd(fd) as held_fd: self._unlock(held_fd)`)
+        return a_.id if isinstance(a_, ast.Name) else None
+    ok = bool(swapped) and len(uses) >= 2 and all(_arg_name(n) in swapped for n in uses)
     # ... and the lock is given up by *unlocking*, not merely by closing: flock belongs to the open file description, which a
     # forked child (or a dup) shares - a bare close leaves the lock held for as long as any sharer lives
     unl_ = [n for n in g2.nodes if n.kind == 'call' and callee_info(g2, n.ast).get('method') == r.osunlock_name and callee_info(g2, n.ast)['kind'] == 'package']
